@@ -2,7 +2,7 @@
 import itertools
 import numpy as np
 from fractions import Fraction
-from common import F, rs, vs, ms, dyadic, close, call, parse_rat
+from common import F, rs, vs, ms, dyadic, close, call, parse_rat, as_given
 from systems import gen_A, gen_K, gen_baseline, apply_K
 from fitlib import certify_rows, fsqrt, ub_text
 from certlib import cert_args_text
@@ -19,12 +19,14 @@ def run(R):
     from dreye.api.optimize.lsq_linear import lsq_linear_decomposition
     ncase = 24 if R.tier == "quick" else 200
     R.rule = ("systems with finite bounds (3 receptors x 3-4 sources), 6-12 samples, 1-3 layers, 0/1 masks with at least one source "
-              "per layer (sampled; exhaustive for <=3 layers x <=4 sources in the thorough tier), equal-L1 on/off, subsampling "
+              "per layer (sampled; a source may be forbidden in every layer, so single-layer fits with switched-off sources occur; masks handed in as "
+              "float/integer/boolean arrays, Fortran order or nested lists), through lsq_linear_decomposition and through "
+              "ReceptorEstimator.fit_decomposition, equal-L1 on/off, subsampling "
               "on/off, opacity bounds, seeds, K/baseline. On dreye's (X, P, B_pred): bounds, mask zeros, equal layer totals, opacity "
               "bounds, B_pred = P X A'^T + baseline, the hook-recorded loss sequence is non-increasing (within solver slack), the "
-              "same seed gives the same arrays, and the factor fitted last is optimal given the other: opacities by the exact KKT "
+              "same seed gives the same arrays when the call is repeated with the caller's same target array (and estimator), and the factor fitted last is optimal given the other: opacities by the exact KKT "
               "check per sample, intensities by a certified gap from LP multipliers through the verified linLower. Non-trivial: "
-              ">= 2 layers with a mask containing zeros or the equal-L1 constraint.")
+              "a mask containing zeros, or >= 2 layers with the equal-L1 constraint.")
     masks_all = {}
     jobs = []
     for ci in range(ncase):
@@ -39,9 +41,12 @@ def run(R):
         bk, base = gen_baseline(rng, nf, kinds=("zero", "vector"))
         lb = np.zeros(ns); ub = dyadic(rng, 1, 3, 2, size=ns)
         Ap, bp = apply_K(A, K, base)
+        # 0/1 masks with at least one source per layer; "full" = additionally every source is allowed in some layer (with a single
+        # layer that would leave only the all-ones mask, so it is not asked for there: one layer with switched-off sources is a legitimate request)
+        full = bool(nl > 1 and rng.integers(2))
         while True:
             mask = (rng.random((nl, ns)) < 0.7).astype(float)
-            if np.all(mask.sum(1) >= 1) and np.all(mask.sum(0) >= 1):
+            if np.all(mask.sum(1) >= 1) and (not full or np.all(mask.sum(0) >= 1)):
                 break
         if rng.integers(3) == 0:
             mask = None
@@ -55,13 +60,33 @@ def run(R):
                  subsample=sub, ubp=ubp, seed=seed, B=B)
         for key in ("n_layers", "K_kind", "baseline_kind", "equal_l1", "subsample"):
             R.count("%s:%s" % (key, c[key]))
-        R.count("mask:%s" % ("none" if mask is None else ("zeros" if np.any(mask == 0) else "ones")))
-        kw = dict(n_layers=nl, mask=(None if mask is None else mask.copy()), lb=lb, ub=ub, K=K, baseline=base, lbp=lbp, ubp=ubp, max_iter=15, seed=seed,
-                  subsample=sub, equal_l1norm_constraint=eq, solver="CLARABEL", return_pred=True)
+        mk = "none" if mask is None else ("zeros" if np.any(mask == 0) else "ones")
+        R.count("mask:%s" % mk); R.count("layers=%d,mask:%s" % (nl, mk))
+        if mask is not None:
+            R.count("mask:%s" % ("every source allowed somewhere" if np.all(mask.sum(0) >= 1) else "a source forbidden in every layer"))
+        # representation of the mask (values unchanged): float / integer / boolean array, Fortran order, nested list
+        rg = R.rng(3, ci)
+        mask_given = None
+        if mask is not None:
+            if rg.integers(5) == 0:
+                mask_given = mask.astype(bool); R.count("given:mask:bool")
+            else:
+                mask_given = as_given(rg, mask.copy(), R, "mask", kinds=("same", "int", "fortran", "list"))
+        via = "estimator" if ci % 3 == 0 else "function"
+        c["via"] = via; R.count("via:%s" % via)
+        kw = dict(n_layers=nl, mask=mask_given, lbp=lbp, ubp=ubp, max_iter=15, seed=seed,
+                  subsample=sub, equal_l1norm_constraint=eq, solver="CLARABEL")
+        Bg = B.copy()    # the caller's target array: the SAME object is handed to both calls (c["B"] keeps the values)
         drain()
-        st, out = call(lsq_linear_decomposition, A, B.copy(), **kw)
+        if via == "estimator":
+            filt = np.hstack([np.zeros((nf, 1)), A, np.zeros((nf, 1))]); src = np.hstack([np.zeros((ns, 1)), np.eye(ns), np.zeros((ns, 1))])
+            stE, est = call(dreye.ReceptorEstimator, filt, domain=1.0, K=(1.0 if K is None else K), baseline=base, sources=src, lb=lb, ub=ub)
+            fit = (lambda stE=stE, est=est: (stE, est)) if stE != "ok" else (lambda est=est, kw=kw, Bg=Bg: call(est.fit_decomposition, Bg, **kw))
+        else:
+            fit = lambda kw=kw, A=A, Bg=Bg, lb=lb, ub=ub, K=K, base=base: call(lsq_linear_decomposition, A, Bg, lb=lb, ub=ub, K=K, baseline=base, return_pred=True, **kw)
+        st, out = fit()
         ev = [e for e in drain() if e["event"] == "decomp_iter"]
-        st2, out2 = call(lsq_linear_decomposition, A, B.copy(), **kw)
+        st2, out2 = fit()
         drain()
         jobs.append(dict(c=c, st=st, out=out, ev=ev, st2=st2, out2=out2, Ap=Ap, bp=bp))
     rowsP = []
@@ -102,7 +127,7 @@ def run(R):
     R.driver.run()
     for job in jobs:
         c = job["c"]; k = c["k"]
-        nontriv = (k,) if (c["n_layers"] >= 2 and (c["equal_l1"] or (c["mask"] is not None and np.any(c["mask"] == 0)))) else None
+        nontriv = (k,) if ((c["n_layers"] >= 2 and c["equal_l1"]) or (c["mask"] is not None and np.any(c["mask"] == 0))) else None
         R.case(c, nontriv, sample=(nontriv is not None))
         sig = "C11:layers=%d" % c["n_layers"]
         if job["st"] != "ok":
